@@ -102,6 +102,8 @@ func checkC01(c *Ctx) {
 	c1Errors(c, "R1.8")
 	c.Rule("R1.9", "each JSON encoder exclusively owns its pooled buffers (a shared scratch buffer lets one entry's bytes appear inside another's line)", 3)
 	c8Ownership4(c, "R1.9")
+	c.Rule("R1.13", "token grammar: every path of every encoder method writes exactly one well-formed member / element / namespace opener / entry", 20)
+	c1Grammar(c, "R1.13")
 	c.Rule("R1.12", "Clone carries context bytes, configuration, spacing and the open-namespace count (a clone that forgets the count leaves the context's namespaces unclosed)", 2)
 	c7CloneCarries(c, "R1.12")
 	c.Rule("R1.11", "the namespace counter accounts for exactly the braces still open (an object nested in an open namespace leaves the enclosing ones counted)", 3)
